@@ -561,6 +561,7 @@ func ruleC14e(c *Ctx) {
 		}
 		name := p.fname(fn)
 		isRaw := func(v ssa.Value) bool {
+			v = strip(v)
 			return isStringType(v.Type()) && up.derives(p, v, map[ssa.Value]bool{})
 		}
 		facts := factsAt(fn)
@@ -613,6 +614,11 @@ func ruleC14e(c *Ctx) {
 				if (cn == "regexp.MatchString" || cn == "regexp.Match") && len(x.Call.Args) > 1 && isRaw(x.Call.Args[1]) {
 					n++
 					c.bad(name, cn+" on the untrimmed request path", p.ipos(x), "the request path is matched as it arrived against an ad-hoc pattern: an end-anchored pattern answers differently for `/p/` and `/p`")
+					return
+				}
+				if strings.HasPrefix(cn, "(*sync.Map).") && len(x.Call.Args) > 1 && isRaw(strip(x.Call.Args[1])) {
+					n++
+					c.bad(name, "untrimmed request path used as a key of a sync.Map", p.ipos(x), "what is remembered for `/p` is not found for `/p/`: the two requests are answered from different entries")
 					return
 				}
 				if rawPredicates[cn] {
